@@ -198,7 +198,9 @@ class _FakePopen(object):
         return (b"", b"")
 
     def terminate(self):
-        pass
+        if self.returncode is None:
+            self.returncode = -15
+            self._rc = -15
 
 
 class _Subprocess(object):
@@ -544,6 +546,15 @@ def _run_hist(case):
                 break
             res, interrupted = [], None
             _State.interrupt = 1 if (st.get("interrupt") and not env.proc) else 0
+            _State.sched = {}
+            if st.get("interrupt") and not env.proc:
+                # commands that have not terminated when Ctrl-C arrives ("late"): seen terminated only after many polls
+                names = [pl["name"] for pl in rs["plots"]]
+                texs = [_ref_group_base(rs, names) + ".tex"] if rs["layout"] == "group" else \
+                    [_ref_base(rs, x) + ".tex" for x in names]
+                for t, late in zip(texs, st.get("late") or []):
+                    if late:
+                        _State.sched[env.abs(t)] = (True, 99)
             try:
                 for v in seq.run(iter(_flow(L, rs["layout"], rs["plots"]))):
                     res.append(v)
@@ -558,6 +569,7 @@ def _run_hist(case):
             finally:
                 _State.proc = False
                 _State.interrupt = 0
+                _State.sched = {}
             vals = sorted((_val(env, v) for v in res), key=jdump)
             run = {"files": _snapshot(env, stamps), "log": env.take_log(), "vals": vals}
             if st.get("interrupt"):
@@ -647,6 +659,59 @@ def _run_stage(case):
         except Exception as e:
             return {"e": exc_name(e)}
         return {"mode": "eu" if w._existing_unchanged else ("ow" if w._overwrite else "normal")}
+    if op == "wdir":
+        try:
+            w = L["output"].Write(_tpl_str(case["dir"]), verbose=False)
+            for st in case["statics"]:
+                w._set_context({} if st is None else {"name": st})
+            with warnings.catch_warnings():
+                warnings.simplefilter("ignore")
+                r = w._make_filename({k: v for k, v in case["out"].items() if v is not None})
+            return {"dir": w.output_directory, "r": list(r)}
+        except Exception as e:
+            return {"e": exc_name(e)}
+    if op == "seltpl":
+        env = _Env()
+        try:
+            tdir = os.path.join(env.base, "tpl")
+            for name, k in (("t.tex", case["default"]), ("alt.tex", case["ctx"])):
+                if k is not None:
+                    with open(os.path.join(tdir, name), "w") as f:
+                        f.write("TPL%d CSV:\\VAR{output.filepath} end" % k)
+            el = L["output"].RenderLaTeX("t.tex" if case["default"] is not None else "", template_dir=tdir)
+            ctx = {"output": {"filetype": "csv", "filepath": env.abs("out/f.csv")}}
+            if case["ctx"] is not None:
+                ctx["output"]["template"] = "alt.tex"
+            res = list(el.run(iter([("x", ctx)])))
+            return {"tpl": env.dec(res[0][0]).get("tex")}
+        except Exception as e:
+            return {"e": exc_name(e)}
+        finally:
+            env.close()
+    if op == "mgmulti":
+        cols = case["cols"]
+        n = len(cols[0])
+
+        class _Multi(object):
+            """a member sequence that gives every member len(cols) results"""
+            def run(self, flow):
+                for val in flow:
+                    i = val[0]
+                    for col in cols:
+                        ctx = copy.deepcopy(val[1])
+                        d = {k: v for k, v in (col[i] or {}).items() if v is not None}
+                        if d:
+                            ctx["output"] = d
+                        yield ("r", ctx)
+        ctx = {"group": [{} for _ in range(n)]}
+        o = {k: v for k, v in (case["ctx"] or {}).items() if v is not None}
+        if o:
+            ctx["output"] = o
+        try:
+            res = list(L["flow"].MapGroup(_Multi()).run(iter([(list(range(n)), ctx)])))
+        except Exception as e:
+            return {"e": exc_name(e)}
+        return {"outs": [{k: r[1].get("output", {}).get(k) for k in OUT_KEYS} for r in res]}
     if op == "mglen":
         o = L["output"]
         mg = L["flow"].MapGroup(o.ToCSV(), _mf(L, STD_MF))
@@ -839,12 +904,16 @@ def compare(case, res, replies):
         # same facts evaluated in Python on the real file system: resolved file names (plotUnit, memberNamed,
         # groupTexPath), SourceClosed at the start, UnitFresh at the end; and specRun (sepCore / grpCore on the
         # resolved names) must end in the world of the element-by-element pipeline
+        if m.get("history_layer_agrees") is False:
+            return "Lean: oexec / exec(freshHistory) (the history layer of the theorems) do not end in the file system of the run-by-run loop"
         facts = []
         hist_failures(case, res, facts)
         for i, (run, mrun) in enumerate(zip(res["runs"], m["runs"])):
             if "e" in run or i >= len(facts):
                 continue
-            sp = mrun.get("spec") or {}
+            sp = mrun.get("spec")
+            if sp is None:
+                continue        # an interrupted run has no specification side
             if "e" in sp:
                 return f"run {i}: the specification side does not resolve the names: {sp}"
             if sp.get("agrees") is not True:
@@ -857,9 +926,16 @@ def compare(case, res, replies):
     if op in ("write", "latex", "png"):
         a, b = _norm_run(res), _norm_run(_mark_passed(case, m))
         return None if a == b else f"impl {jdump(a)[:700]} vs model {jdump(b)[:700]}"
+    if op == "mgmulti":
+        if "e" in res:
+            return f"impl raised {res}"
+        a, b = [_norm_out(x) for x in res["outs"]], [_norm_out(x) for x in m["outs"]]
+        return None if a == b else f"impl {a} vs model {b}"
     if op == "latexrun":
         if "e" in res or "e" in m:
             return None if res.get("e") == m.get("e") else f"impl {res} vs model {m}"
+        if m.get("seq_agrees") is not True:
+            return "Lean: latexRun and latexRunSeq (the two sides of latexRun_yields_iff_ok) differ on this flow"
         a, b = _norm_run(res), _norm_run(m)
         a["vals"], b["vals"] = [_norm_val(v) for v in res["vals"]], [_norm_val(v) for v in m["vals"]]   # in yield order
         return None if a == b else f"impl {jdump(a)[:800]} vs model {jdump(b)[:800]}"
@@ -1046,6 +1122,42 @@ def _oracle_stage(case, res):
         if res.get("pool"):
             return f"LaTeXToPDF: {res['pool']} processes left in the pool after the run"
         return None
+    if op == "wdir":
+        # Write(output_directory with {{name}}): the path starts with the directory formatted with the static context
+        # (the last one that could be formatted; unformatted as long as none could)
+        if "e" in res:
+            return f"Write._make_filename raised {res}"
+        t = case["dir"]
+        want = _tpl_str(t)
+        if any(p is None for p in t):
+            for st in case["statics"]:
+                if st is not None:
+                    want = "".join(st if p is None else p for p in t)
+        o = case["out"]
+        fn = o.get("filename") or "output"
+        fe = o.get("fileext") if o.get("fileext") is not None else (o.get("filetype") if o.get("filetype") is not None else "txt")
+        ref = _join(want, o.get("dirname") or "", fn + ("." + fe if fe else ""))
+        if res["r"][3] != ref:
+            return f"Write({_tpl_str(t)!r}) after _set_context {case['statics']}: path {res['r'][3]}, expected {ref}"
+        return None
+    if op == "seltpl":
+        # "select_template ... is the name of the template to be used (unless context.output.template overwrites that)"
+        want = case["ctx"] if case["ctx"] is not None else case["default"]
+        if want is None:
+            return None if res.get("e") == "LenaRuntimeError" else f"RenderLaTeX without any template: expected LenaRuntimeError, got {res}"
+        if res.get("tpl") != want:
+            return f"RenderLaTeX(default template {case['default']}, context.output.template {case['ctx']}) rendered {res}"
+        return None
+    if op == "mgmulti":
+        if "e" in res:
+            return f"MapGroup raised {res}"
+        if len(res["outs"]) != len(case["cols"]):
+            return f"MapGroup: {len(res['outs'])} results for {len(case['cols'])} results per member"
+        for j, (col, out) in enumerate(zip(case["cols"], res["outs"])):
+            if any((o or {}).get("changed") is True for o in col) and out["changed"] is not True:
+                return (f"MapGroup: result {j} of the group: a member has output.changed=True "
+                        f"({[(o or {}).get('changed') for o in col]}) but the group's output.changed is {out['changed']!r}")
+        return None
     if op == "mglen":
         if case["ndata"] != case["ngroup"]:
             return None if res.get("e") == "LenaRuntimeError" else f"MapGroup: data of length {case['ndata']} with a group of {case['ngroup']}: expected LenaRuntimeError, got {res}"
@@ -1178,6 +1290,7 @@ def hist_failures(case, res, facts=None):
     fails = []
     prev = {}          # rel -> token after the previous run
     tainted = set()    # unit bases whose derived artefacts were stale after the previous run
+    interrupted_hist = False
     ri = -1
     for st in case["steps"]:
         pre = {p: c for p, c in prev.items() if p not in set(st.get("del", []))}
@@ -1204,6 +1317,23 @@ def hist_failures(case, res, facts=None):
             fails.append(("violation", f"{tag}: after an interrupted run the pool of LaTeXToPDF still holds "
                           f"{run['pool']} processes (they would be yielded by the next run)"))
         names = [pl["name"] for pl in rs["plots"]]
+        if st.get("interrupt") and any(st.get("late") or []):
+            # Ctrl-C is not one of the faults the property quantifies over (it speaks of removed files): a command that
+            # had not terminated leaves its pdf without a new image.  Checked here: the pool is empty afterwards (above),
+            # and later runs yield one value per plot (no left-over values); the units are exempt from freshness from now on
+            interrupted_hist = True
+            if facts is not None:
+                facts.append([])
+            prev = files
+            tainted = set()
+            continue
+        if interrupted_hist:
+            if len(run["vals"]) != want_vals:
+                fails.append(("violation", f"{tag}: {len(run['vals'])} values yielded for {nplots} plots after an interrupted run"))
+            if facts is not None:
+                facts.append([])
+            prev = files
+            continue
         if rs["layout"] != "group" and len(set(names)) < len(names):
             # several plots share one file name: the later plot overwrites the files of the earlier one; the
             # property speaks about plots with files of their own (the theorems' UnitsOK).  Compared with the
@@ -1603,13 +1733,39 @@ def _stage_cases():
     for n in (2, 3):
         for seq in itertools.product(states, repeat=n):
             cases.append({"op": "render2", "tpls": [list(x) for x in seq]})
+    # a value without any `output` context (Write creates it): default file name, no other key appears
+    for data in ({"text": A}, {"writer": A}):
+        for mode in ("normal", "eu", "ow"):
+            for exists in (None, A, B):
+                world = {"files": [] if exists is None else [{"p": f"{OUT}/output.txt", "c": exists, "m": 5}], "clock": 9}
+                for out in ({}, {"changed": True}):
+                    cases.append({"op": "write", "outdir": OUT, "mode": mode, "world": world, "data": data,
+                                  "nowrite": False, "out": out})
+    # Write with a formatted output directory and static contexts set one after the other
+    for d in (["out"], ["out/", None], [None, "/x"], ["a_", None, "_b"]):
+        for statics in ([], [None], ["s"], ["s", "t"], ["s", None], [None, "t"]):
+            for out in ({"filename": "f", "filetype": "csv"}, {}, {"filename": "f", "dirname": "d", "fileext": "e"}):
+                cases.append({"op": "wdir", "dir": d, "statics": statics, "out": out})
+    # RenderLaTeX: the template of the element and context.output.template
+    for c in (None, 1, 2):
+        for d in (None, 1, 2):
+            cases.append({"op": "seltpl", "ctx": c, "default": d})
+    # MapGroup with a member sequence that gives several results per member
+    tri = (None, True, False)
+    for k in (1, 2, 3):
+        for n in (1, 2):
+            for flags in itertools.product(tri, repeat=min(k * n, 4)):
+                fl = list(flags) + [None] * (k * n - len(flags))
+                cols = [[{"changed": fl[j * n + i], "filetype": "csv", "filename": "m%d" % i} for i in range(n)]
+                        for j in range(k)]
+                for c in tri:
+                    cases.append({"op": "mgmulti", "ctx": {"changed": c}, "cols": cols, "old": {}})
     # MapGroup: the data list and context.group must have the same length
     for a in range(0, 3):
         for b in range(0, 3):
             if (a, b) != (0, 0):
                 cases.append({"op": "mglen", "ndata": a, "ngroup": b})
     # group_plots / _update_with_group
-    tri = (None, True, False)
     for n in range(1, 4):
         for ms in itertools.product(tri, repeat=n):
             cases.append({"op": "gp", "ms": list(ms)})
@@ -1735,11 +1891,14 @@ def _base_histories(ctx):
         files = _unit_files(layout, n)
         for datas in itertools.product((1, 2), repeat=n):
             for dels in ([], files[-2:-1], files[:1]):
-                st = _run_step(_cfg(), layout, 1, list(datas), dels)
-                st["interrupt"] = True
-                for reuse in (False, True):
-                    yield {"op": "hist", "reuse": reuse,
-                           "steps": [_run_step(_cfg(), layout, 1, [1] * n), st, _run_step(_cfg(), layout, 2, list(datas))]}
+                for late in itertools.product((False, True), repeat=1 if layout == "group" else n):
+                    st = _run_step(_cfg(), layout, 1, list(datas), dels)
+                    st["interrupt"] = True
+                    st["late"] = list(late)      # commands that have not terminated when Ctrl-C arrives
+                    for reuse in (False, True):
+                        yield {"op": "hist", "reuse": reuse,
+                               "steps": [_run_step(_cfg(), layout, 1, [1] * n), st,
+                                         _run_step(_cfg(), layout, 2, list(datas))]}
     # MakeFilename(overwrite=True): the group's MakeFilename replaces what the members have in common
     ow_variants = [
         ("separate", 2, _cfg(mf=dict(STD_MF, overwrite=True))),
